@@ -78,6 +78,7 @@ def apply(text, rules, what, log):
         text, n = r0_pubfields(text)
     rules = [r for r in rules if r != 'KEEPPRIV']
     text, n = r0_crate_paths(text)
+    text, n = r0_std_net(text)
     text, n = r0_duration_const(text)
     if n:
         log['rewrites'].append({'rule': 'R0c', 'item': what, 'count': n, 'note': 'Duration const as exec const with value ensures'})
@@ -219,6 +220,20 @@ def r0_duration_const(text):
     return new, 1
 
 
+def r0_std_net(text):
+    """`std::net::X` -> `X` (the unit's model of std::net lives in the flat namespace, prelude/net.rs)"""
+    m = mask(text)
+    out = []
+    last = 0
+    n = 0
+    for mo in re.finditer(r'(?<![A-Za-z0-9_:])(?:::)?std::net::', m):
+        out.append(text[last:mo.start()])
+        last = mo.end()
+        n += 1
+    out.append(text[last:])
+    return ''.join(out), n
+
+
 def r0_crate_paths(text):
     """`crate::a::b::Name` -> `Name` (macro-generated code spells full paths; the unit is one flat namespace)"""
     m = mask(text)
@@ -338,6 +353,54 @@ def r3_enumerate(text):
         s = 'vx_s%d' % n
         new = ('let %s = %s;\nlet mut %s: usize = 0;\nwhile %s < %s.len() {\nlet %s = &%s[%s];%s\n%s += 1;\n}'
                % (s, base, i_name, i_name, s, x_name, s, i_name, body.rstrip(), i_name))
+        text = text[:mo.start()] + new + text[close + 1:]
+        n += 1
+    return text, n
+
+
+def r3m_enumerate_mut(text):
+    """`for (I, B) in A.iter_mut().enumerate()[.take(N)][.skip(M)] { .. *B .. }` -> indexed while over M..min(N, A.len())
+    with `*B` written as `A[I]` (definition of Skip<Take<Enumerate<slice::IterMut>>>); the loop counter is `vx_kN`"""
+    n = 0
+    pat = re.compile(r'for \((' + _IDENT + r'), (' + _IDENT + r')\) in\s')
+    pos = 0
+    while True:
+        m = mask(text)
+        mo = pat.search(m, pos)
+        if not mo:
+            break
+        i_name, b_name = mo.group(1), mo.group(2)
+        j = mo.end()
+        while m[j] != '{':
+            if m[j] in '([':
+                j = match_close(m, j)
+            j += 1
+        expr = re.sub(r'\s+', '', text[mo.end():j])
+        mo2 = re.match(r'^(.*)\.iter_mut\(\)\.enumerate\(\)(?:\.take\(([0-9A-Za-z_]+)\))?(?:\.skip\(([0-9A-Za-z_]+)\))?$', expr)
+        if not mo2:
+            pos = mo.end()
+            continue
+        base, take, skip = mo2.group(1), mo2.group(2), mo2.group(3)
+        close = match_close(m, j)
+        body = text[j + 1:close]
+        mb = mask(body)
+        if re.search(r'(?<![A-Za-z0-9_])(continue|break)(?![A-Za-z0-9_])', mb):
+            raise ExtractError('R3M: loop body contains continue/break')
+        # every use of the element must be a dereference `*B`
+        uses = [x.start() for x in re.finditer(r'(?<![A-Za-z0-9_])%s(?![A-Za-z0-9_])' % re.escape(b_name), mb)]
+        out = body
+        for u in reversed(uses):
+            k = u - 1
+            while k >= 0 and mb[k].isspace():
+                k -= 1
+            if k < 0 or mb[k] != '*':
+                raise ExtractError('R3M: element `%s` used other than as `*%s`' % (b_name, b_name))
+            out = out[:k] + '%s[%s]' % (base, i_name) + out[u + len(b_name):]
+        kname = 'vx_k%d' % n
+        nname = 'vx_n%d' % n
+        hi = ('if %s < %s.len() { %s } else { %s.len() }' % (take, base, take, base)) if take else '%s.len()' % base
+        new = ('let %s: usize = %s;\nlet mut %s: usize = %s;\nwhile %s < %s {\nlet %s = %s;%s\n%s += 1;\n}'
+               % (nname, hi, kname, skip or '0', kname, nname, i_name, kname, out.rstrip(), kname))
         text = text[:mo.start()] + new + text[close + 1:]
         n += 1
     return text, n
@@ -731,6 +794,7 @@ RULES = {
     'R3V': r3v_for_vec,
     'R11': r11_events_commit,
     'R3': r3_enumerate,
+    'R3M': r3m_enumerate_mut,
     'R4': r4_for_iter,
     'R5': r5_mut_self,
     'R6': r6_is_some_and,
